@@ -894,6 +894,12 @@ structure C12St where
   synDelivered : List (Nat × String) := []          -- (line, SYN source address) of every delivered SYN
   listeners : List (Nat × Nat × String) := []       -- (host, slot, port) of live listeners
   settled : Bool := false
+  -- evidence that the history really healed and drained before `mark settled` (a shrunk history may not)
+  maxlat : Nat := 0
+  heldPairs : List (Nat × Nat) := []                -- unordered pairs held and not yet released
+  cutPairs : List (Nat × Nat) := []                 -- unordered pairs with a partitioned direction, not yet repaired
+  quiet : Nat := 0                                  -- steps since the last connect / link / listener operation
+  dry : Bool := false                               -- an accept found nothing to accept after `quiet` exceeded the latency
   res : OResult := {}
 
 def C12St.fail (st : C12St) (ln : Nat) (msg : String) : C12St :=
@@ -932,7 +938,31 @@ def c12Cut (st : C12St) (ln x y : Nat) (both : Bool) : C12St :=
            !st.synDelivered.any (fun p => p.1 < ln && p.2 == src) then { c with doomed := true } else c
       | _, _ => c) }
 
-def c12Step (st : C12St) (x : Nat × List String × List String) : C12St :=
+def upair (a b : Nat) : Nat × Nat := if a ≤ b then (a, b) else (b, a)
+
+/-- bookkeeping for the "nobody hangs" rule: which links are still held / cut, and how long the history has been quiet. -/
+def c12Evidence (st : C12St) (op obs : List String) : C12St :=
+  let stir := fun (st : C12St) => { st with quiet := 0, dry := false }
+  match op with
+  | ["ctl", "step"] => { st with quiet := st.quiet + 1 }
+  | [_, "tcp_connect", _, _] => stir st
+  | [_, "tcp_bind", _, _] => stir st
+  | [_, "drop", _] => stir st
+  | ["ctl", "crash", _] => stir st
+  | ["ctl", "bounce", _] => stir st
+  | [_, "tcp_accept", _, _] => if obs == ["pending"] && st.quiet ≥ st.maxlat + 2 then { st with dry := true } else st
+  | [_, name, a, b] =>
+    let pr := upair (hostTok a) (hostTok b)
+    if name == "hold" || name == "net_hold" then stir { st with heldPairs := pr :: st.heldPairs.filter (· != pr) }
+    else if name == "release" || name == "net_release" then stir { st with heldPairs := st.heldPairs.filter (· != pr) }
+    else if name == "partition" || name == "net_partition" || name == "partition1" || name == "net_partition1" then
+      stir { st with cutPairs := pr :: st.cutPairs.filter (· != pr) }
+    else if name == "repair" || name == "net_repair" then stir { st with cutPairs := st.cutPairs.filter (· != pr) }
+    else if name == "repair1" || name == "net_repair1" then stir st
+    else st
+  | _ => st
+
+def c12StepCore (st : C12St) (x : Nat × List String × List String) : C12St :=
   let (ln, op, obs) := x
   match op with
   | [h, "tcp_connect", s, dst] =>
@@ -974,7 +1004,16 @@ def c12Step (st : C12St) (x : Nat × List String × List String) : C12St :=
   -- one direction cut: a request travelling in that direction — in flight or ready but not handed over — is lost
   | ["ctl", "partition1", a, b] => c12Cut st ln (hostTok a) (hostTok b) false
   | [_, "net_partition1", a, b] => if obs == ["ok"] then c12Cut st ln (hostTok a) (hostTok b) false else st
-  | ["ctl", "mark", "settled"] => { st with settled := true }
+  | ["ctl", "mark", "settled"] =>
+    -- "nobody hangs" is judged here, before the leftovers are dropped: everything was healed and accepted
+    -- it applies only to a history that shows the healing: no link still held or cut, longer quiet than the largest
+    -- latency, and either no listener left or an accept that found nothing more to accept
+    let healed := st.heldPairs.isEmpty && st.cutPairs.isEmpty && st.quiet ≥ st.maxlat + 3 &&
+                  (st.dry || !st.listeners.any (fun l => l.1 == 0))
+    let st := if !healed then st else match st.conns.find? (fun c => c.status == "pending") with
+      | some c => st.fail ln s!"connect from h{c.host} to {c.dst} neither completed nor was refused after every link was healed and every request accepted"
+      | none => st
+    { st with settled := true }
   | [h, "count"] =>
     if st.settled then
       match obs with
@@ -983,6 +1022,12 @@ def c12Step (st : C12St) (x : Nat × List String × List String) : C12St :=
       | _ => st
     else st
   | _ => st
+
+def c12Step (st : C12St) (x : Nat × List String × List String) : C12St :=
+  let st := c12StepCore st x
+  -- the `ctl` token of controller operations is the host position of host operations: strip it for link ops
+  let op := match x.2.1 with | "ctl" :: name :: a :: b :: [] => ["ctl", name, a, b] | o => o
+  c12Evidence st op x.2.2
 
 def portOf (a : String) : String := match a.splitOn ":" with | [_, p] => p | _ => ""
 
@@ -999,7 +1044,8 @@ def oracleC12 (lines : List String) : OResult :=
   let synDelivered := (lines.zipIdx 1).filterMap (fun (l, i) => match toks l with
     | ["EV", "delivered", src, _, "syn"] => some (i, src)
     | _ => none)
-  let st := pairs.foldl c12Step { synLocs := synLocs, synDelivered := synDelivered }
+  let cfgT := match lines.find? (·.startsWith "CFG ") with | some l => toks l | none => []
+  let st := pairs.foldl c12Step { synLocs := synLocs, synDelivered := synDelivered, maxlat := kvNat cfgT "maxlat_ms" 0 }
   let res := st.res
   -- (1) every successful connect is matched by exactly one accept with mirrored addresses
   let (res, accepts) := st.conns.foldl (fun (acc : OResult × List (String × String × Bool)) c =>
